@@ -83,6 +83,13 @@ def weird_programs():
         "result-of-declaration-body": "如何怪法？\n    令丑 = 1\n\n",
         "result-of-loop-body": "如何怪法？\n    遍历【】：\n        令丑 = 1\n\n",
         "result-of-branch-not-taken": "如何怪法？\n    如果假：\n        令丑 = 1\n\n",
+        # literals that repeat a key, and plain collections (for the consumers that change a collection while / before reading it)
+        "dict-literal-aa": "令怪 = 【“a” = 1，“a” = 2】\n",
+        "dict-literal-aba": "令怪 = 【“a” = 1，“b” = 2，“a” = 3】\n",
+        "dict-literal-aab": "令怪 = 【“a” = 1，“a” = 2，“b” = 3】\n",
+        "dict-literal-copy-aba": "令妖 = 【“a” = 1，“b” = 2，“a” = 3】\n令怪 = 妖\n",
+        "plain-list-4": "令怪 = 【1，2，3，4】\n",
+        "plain-dict-3": "令怪 = 【“a” = 1，“b” = 2，“c” = 3】\n",
         "type-value": "定义环：\n    其下 = 空\n令怪 = 环\n",
         "method-value": "如何怪法二？\n    输出1\n令怪 = 怪法二\n",
     }
@@ -90,6 +97,13 @@ def weird_programs():
         "display": "（显示：怪）\n输出1\n", "display-call": "（显示：（怪法））\n输出1\n", "return": "输出怪\n", "format": "输出“{}” % 【怪】\n", "json": "输出（生成JSON：【“v” = 怪】）\n", "copy": "令丙 = 怪\n输出1\n",
         "equal-self": "输出怪 为 怪\n", "equal-other": "输出怪 == 【1】\n", "contains": "输出以【怪】（包含：怪）\n", "find": "输出以【1，怪】（寻找：怪）\n",
         "iterate": "遍历怪：\n    （显示：1）\n输出1\n", "in-literal": "输出【怪，怪】\n", "throw": "抛出异常：怪！\n", "concat": "输出“x” + 怪\n", "index": "输出怪#1\n",
+        "remove-then-read": "以怪（移除：“a”）\n输出【怪，怪之所有值，怪之所有索引，怪之数目】\n", "write-then-read": "以怪（写入：“a”、9）\n输出【怪，怪之所有值】\n",
+        "remove-twice": "以怪（移除：“a”）\n以怪（移除：“a”）\n以怪（移除：“b”）\n输出怪\n",
+        "iterate-shift": "遍历怪：\n    以怪（左移）\n输出怪\n", "iterate-pop": "以值遍历怪：\n    以怪（右移）\n    （显示：值）\n输出怪\n",
+        "iterate-append": "令数 = 0\n遍历怪：\n    数 = 数 + 1\n    如果数 < 9：\n        以怪（后增：数）\n输出怪\n",
+        "iterate-remove-key": "以键、值遍历怪：\n    以怪（移除：键）\n输出怪\n", "iterate-remove-other": "以键、值遍历怪：\n    以怪（移除：“c”）\n    以怪（移除：“b”）\n输出怪\n",
+        "iterate-write-key": "令数 = 0\n以键、值遍历怪：\n    数 = 数 + 1\n    如果数 < 9：\n        以怪（写入：“k” + “x”、数）\n输出怪\n",
+        "iterate-reassign": "遍历怪：\n    怪 = 【】\n输出怪\n", "iterate-set-index": "以序、值遍历怪：\n    怪#1 = 【】\n输出怪\n",
         "text": "输出怪之文本\n", "length": "输出怪之长度\n", "join": "输出以【怪】（拼接：“,”）\n", "merge": "输出以【1】（合并：怪）\n",
     }
     out = []
